@@ -16,48 +16,64 @@ import (
 type refMutant struct {
 	name string
 	opts refOpts
+	in   string // the configuration whose alphabet has the body kind the mutant is about ("" = search all)
 }
 
 var refMutants = []refMutant{
-	{"cache-not-cleared-by-remove-method", refOpts{staleOnRemove: true}},
-	{"cache-not-cleared-by-defmethod-on-a-new-specialiser-tuple", refOpts{staleOnNewKey: true}},
-	{"replaced-method-body-still-served-from-cache", refOpts{staleOnReplace: true}},
-	{"single-method-fast-path-not-recomputed-by-remove-method", refOpts{staleDefault: true}},
-	{"after-methods-most-specific-first", refOpts{aftersForward: true}},
-	{"second-argument-decides-specificity-first", refOpts{rightToLeft: true}},
-	{"every-second-around-skipped-by-call-next-method", refOpts{aroundSkipSecond: true}},
-	{"least-specific-primary-chosen", refOpts{primaryLeast: true}},
-	{"around-without-call-next-method-still-runs-the-rest", refOpts{stopRunsInner: true}},
-	{"remove-method-no-op-when-the-tuple-was-first-defined-with-an-unspecialised-parameter", refOpts{removeKeepsUnspecialised: true}},
+	{"cache-not-cleared-by-remove-method", refOpts{staleOnRemove: true}, ""},
+	{"cache-not-cleared-by-defmethod-on-a-new-specialiser-tuple", refOpts{staleOnNewKey: true}, ""},
+	{"replaced-method-body-still-served-from-cache", refOpts{staleOnReplace: true}, ""},
+	{"single-method-fast-path-not-recomputed-by-remove-method", refOpts{staleDefault: true}, ""},
+	{"after-methods-most-specific-first", refOpts{aftersForward: true}, ""},
+	{"second-argument-decides-specificity-first", refOpts{rightToLeft: true}, ""},
+	{"every-second-around-skipped-by-call-next-method", refOpts{aroundSkipSecond: true}, ""},
+	{"least-specific-primary-chosen", refOpts{primaryLeast: true}, ""},
+	{"around-without-call-next-method-still-runs-the-rest", refOpts{stopRunsInner: true}, ""},
+	{"remove-method-no-op-when-the-tuple-was-first-defined-with-an-unspecialised-parameter", refOpts{removeKeepsUnspecialised: true}, ""},
+	// round 8: the new body kinds, lambda lists and defgeneric evaluated again
+	{"second-call-next-method-of-one-around-skips-the-next-around", refOpts{secondCnmSkips: true}, "k1"},
+	{"call-next-method-from-a-primary-or-daemon-below-an-around-runs-the-inner-methods-again", refOpts{primaryCnmReruns: true}, "x1"},
+	{"call-next-method-passes-the-original-arguments-not-the-given-ones", refOpts{cnmIgnoresArgs: true}, "k2"},
+	{"after-a-nested-call-the-outer-around-skips-the-remaining-arounds", refOpts{nestedClobbersOuter: true}, "g1"},
+	{"call-next-method-in-a-nested-call-without-around-continues-the-outer-call", refOpts{cnmLeaksToOuter: true}, "g1"},
+	{"optional-key-rest-argument-takes-part-in-dispatch", refOpts{tailDecides: true}, "o1"},
+	{"defgeneric-evaluated-again-is-ignored-even-its-method-option", refOpts{regenIgnored: true}, "rg1"},
 }
 
 // wouldFlag mirrors checker.check on the level of expectations: would the
 // oracle report a failure if slip behaved like `got` where the reference
 // demands `want`?
 func wouldFlag(want, got expect) bool {
+	gotErr := got.kind == exNone || got.kind == exError
 	switch want.kind {
 	case exStrict:
-		return got.kind == exNone || !equalStrings(want.trace, got.trace) || want.value != got.value
+		return gotErr || !equalStrings(want.trace, got.trace) || want.value != got.value
 	case exNone:
 		return got.kind != exNone
+	case exError:
+		return !gotErr || !equalStrings(want.trace, got.trace)
 	}
-	// lenient: only entries that are not applicable under the current table are flagged
+	// lenient: only entries that are not applicable under the current table, or that run more often than the bodies ask for, are flagged
 	ok := map[string]bool{}
-	for s := 0; s < 4; s++ {
-		for _, t := range want.applicable[s] {
-			ok[t] = true
+	for t := range want.mayRun {
+		ok[t] = true
+	}
+	expCount := map[string]int{}
+	for _, e := range want.trace {
+		if !strings.HasSuffix(e, "-out") && !strings.HasPrefix(e, "(") {
+			expCount[baseTag(e)]++
 		}
 	}
-	seen := map[string]bool{}
+	seen := map[string]int{}
 	for _, e := range got.trace {
-		if strings.HasSuffix(e, "-out") {
+		if strings.HasSuffix(e, "-out") || strings.HasPrefix(e, "(") {
 			continue
 		}
 		t := baseTag(e)
-		if !ok[t] || seen[t] {
+		seen[t]++
+		if !ok[t] || (1 <= expCount[t] && expCount[t] < seen[t]) || (expCount[t] == 0 && 1 < seen[t]) {
 			return true
 		}
-		seen[t] = true
 	}
 	return false
 }
@@ -95,6 +111,12 @@ func distinguish(cfg *config, mut refOpts, limit int) (hist []string, found bool
 				} else {
 					ref.apply(po)
 					m.apply(po)
+					if po.kind == 'G' || po.kind == 'M' {
+						// the driver compares the implementation's table with the two admissible ones
+						if sl := m.t.slots(); !equalStrings(sl, ref.t.slots()) && !equalStrings(sl, ref.regenAlt.slots()) {
+							return true
+						}
+					}
 				}
 				for _, a := range cfg.calls {
 					if wouldFlag(ref.call(a), m.call(a)) {
@@ -106,7 +128,7 @@ func distinguish(cfg *config, mut refOpts, limit int) (hist []string, found bool
 			ref := replay(cur, refOpts{})
 			for _, o := range ops {
 				po, _ := parseOp(o)
-				if po.kind == 'r' && !ref.present(slotOf(po.variant), po.spec) {
+				if po.kind == 'r' && !ref.removable(slotOf(po.variant), po.spec) {
 					continue
 				}
 				cur = append(cur, o)
@@ -135,7 +157,7 @@ func selftest(tier string) (killed, total int, notes []string) {
 		done := false
 		for limit := 1; limit <= maxLen && !done; limit++ {
 			for _, cfg := range tierConfigs(tier) {
-				if limit > cfg.maxLen {
+				if limit > cfg.maxLen || (mu.in != "" && mu.in != cfg.id) {
 					continue
 				}
 				if h, ok := distinguish(cfg.config, mu.opts, limit); ok {
